@@ -41,6 +41,9 @@ SOURCES = [
     ("a.b", ["dotted"]), ("a.b + a.c", ["dotted"]), ("has(m.k) ? m.k : 0", ["nested"]), ("m.k + n", ["nested"]), ("x", ["package"]), ("x + 1", ["package"]), ("p.x", ["package"]),
     ("CEL + ex_1", ["keywordish"]), ("[n, n].exists(e, e == n) && n < 10", ["plain"]), ("10 / n", ["plain", "failing"]), ("size(m) + [1].map(i, i)[0]", ["nested"]),
     ("1 + 1", ["empty"]), ("'lit' + 'eral'", ["empty"]), ("[3, 2, 1].filter(v, v > 1)", ["empty"]), ("h1(n)", ["plain", "host"]), ("n.h2(2)", ["plain", "host"]),
+    # the same literal text cooked and raw (three positions apart: both spellings land in the same worker's slice)
+    ('"a\\tb" + "|"', ["empty"]), ("'\\x41\\u00e9' + 'z'", ["empty"]), ('"""x\\ny""" + "|"', ["empty"]),
+    ('r"a\\tb" + "|"', ["empty"]), ("r'\\x41\\u00e9' + 'z'", ["empty"]), ('r"""x\\ny""" + "|"', ["empty"]),
 ]
 BINDINGS = {
     "empty": [{}],
